@@ -3,7 +3,7 @@
    instantiated with them. *)
 From Coq Require Import List ZArith Lia Bool.
 From RG.Base Require Import Outcome GoSlice.
-From RG.Adapter Require Import Str Model.
+From RG.Adapter Require Import Str Model Conc.
 From RGW Require Import Gen_Adapter Inst_Adapter.
 Import ListNotations.
 Local Open Scope Z_scope.
@@ -83,6 +83,26 @@ Theorem C19_prepare_serialised :
 Proof. exact (conj gen_prepare_serialised gen_sites_ok). Qed.
 Print Assumptions C19_prepare_serialised.
 
+(* Passes running in parallel: any number of goroutines, any schedule (small-step interleaving of the regenerated
+   prepareEngine tree followed by runAnalyzer's unlocked reads of runnerStatePool / globalEngine). *)
+Theorem C19_no_data_race_on_globals :
+  forall lo c, reachable gen_prepare_tree lo c -> ~ race c.
+Proof. exact gen_no_race. Qed.
+Print Assumptions C19_no_data_race_on_globals.
+
+(* ... the completed prepareEngine calls are, in lock order, a history of the sequential specification ... *)
+Theorem C19_concurrent_passes_linearizable :
+  forall lo c, reachable gen_prepare_tree lo c -> c_mu c = None ->
+               hist_rel lo (gh_hist (c_gh c)) (c_g c) (gh_total (c_gh c)).
+Proof. exact gen_linearizable. Qed.
+Print Assumptions C19_concurrent_passes_linearizable.
+
+(* ... and newEngine is called at most once per process whatever the schedule. *)
+Theorem C19_concurrent_loaded_once :
+  forall lo c, reachable gen_prepare_tree lo c -> (gh_total (c_gh c) <= 1)%nat.
+Proof. exact gen_concurrent_loaded_once. Qed.
+Print Assumptions C19_concurrent_loaded_once.
+
 (* non-vacuity: concrete, non-trivial instances *)
 Example c19_report :
   let r := {| rd_rule_info := {| ri_line := 12; ri_group := {| g_name := [103]; g_filename := [47;120;47;114;46;103;111] |} |};
@@ -107,3 +127,13 @@ Example c19_history :
   map fst (run_preps prep g_init [LoadErr [1]; LoadOk 5%N; LoadOk 6%N])
   = [ {| pr_engine := None; pr_err := Some [1] |}; {| pr_engine := None; pr_err := None |}; {| pr_engine := None; pr_err := None |} ].
 Proof. vm_compute. reflexivity. Qed.
+
+(* a concrete interleaving: goroutines 0 and 1 race for a failing load; 1 wins, 0 then sees the sticky flag *)
+Example c19_schedule :
+  let lo := fun _ : nat => LoadErr [1] in
+  let run := fold_left (fun c i => match step lo c i with Some c' => c' | None => c end) in
+  let c := run [1;0;1;1;0;1;1;1;1;1;1;1;0;0;0;0;0;0;0;0]%nat (init gen_prepare_tree) in
+  c_mu c = None /\ gh_total (c_gh c) = 1%nat
+  /\ map (fun e => (fst (fst (fst e)), snd (fst e))) (gh_hist (c_gh c))
+     = [(1%nat, {| pr_engine := None; pr_err := Some [1] |}); (0%nat, {| pr_engine := None; pr_err := None |})].
+Proof. vm_compute. repeat split; reflexivity. Qed.
